@@ -275,12 +275,13 @@ def evaluate(case):
                 pr = lib(BP + ['read_parquet_dask'], read_parquet_dask, target, bounds=tuple(box), **gkw)
                 pparts = list(lib(BP + ['compute-partitions'], lambda: dask.compute(*pr.to_delayed())))
                 got_rids = [_rids(p) for p in pparts]
-                if not expected and got_rids == [()] and not len(pr._partition_bounds.get(active, ())):
+                if got_rids == [()] and not len(pr._partition_bounds.get(active, ())):
                     kept = []           # nothing kept: the library answers with one row-less placeholder partition
                 elif got_rids == [full_rids[i] for i in expected]:
                     kept = expected
                 else:
                     kept = _subsequence(got_rids, full_rids)
+                if kept != expected:
                     extra = [] if kept is None else [i for i in kept if i not in expected]
                     if kept is None:
                         what = 'kept-partitions-are-not-partitions-of-the-dataset'
